@@ -659,3 +659,50 @@ Proof. apply Forall2_self. intros [[s n] c]. split; cbn; [reflexivity | apply sc
 (* the real threshold at the scaled inputs corresponds to the threshold divided by k at the original inputs *)
 Lemma threshold_div_scale k : 0 < k -> sc k (Fin (DISTRIBUTE_THRESHOLD_Q / k)) (threshold (T := XQ)).
 Proof. intros Hk. unfold sc, threshold. cbn. field. lra. Qed.
+
+(* ------------------------------------------------------------------------------------------------------------ *)
+(** * With the real, fixed THRESHOLD the two kernels are NOT homogeneous (known finding grid-track-threshold-absolute) *)
+
+(* one column `minmax(0px, 1px)`, base size 0, growth limit 1, in a container 1/16 px wide; k = 1/8.
+   Unscaled: free space 1/16 > 0.01, the track grows to 1/16.  Scaled: free space 1/128 <= 0.01, the loop does not run, the
+   track stays at 0 (expected 1/128).  Replayed on the implementation through `vh c09 one` by lib/props/c04.py. *)
+Definition thr_witness_track : track XQ :=
+  mk_track KTrack false (SLength (Fin 0)) (SLength (Fin 1)) zero zero (Fin 1) zero zero zero false.
+
+Lemma thr_witness_values :
+  map (fun t => x_red (base_size t)) (maximise_tracks None (Definite (Fin (1#16))) [thr_witness_track]) = [Fin (1#16)] /\
+  map (fun t => x_red (base_size t))
+      (maximise_tracks (opt_scale (1#8) None) (gavail_scale (1#8) (Definite (Fin (1#16)))) (map (track_scale (1#8)) [thr_witness_track]))
+    = [Fin 0].
+Proof. split; vm_compute; reflexivity. Qed.
+
+Lemma maximise_tracks_not_homogeneous :
+  exists k inner a ts, 0 < k /\
+    ~ tracks_rel k (maximise_tracks inner a ts) (maximise_tracks (opt_scale k inner) (gavail_scale k a) (map (track_scale k) ts)).
+Proof.
+  exists (1#8), None, (Definite (Fin (1#16))), [thr_witness_track]. split; [reflexivity|]. intros H.
+  inversion H as [|? ? ? ? Ht _]; subst. track_open Ht. vm_compute in Hbase. discriminate Hbase.
+Qed.
+
+Lemma distribute_not_homogeneous :
+  exists k sp ts, 0 < k /\
+    ~ tracks_rel k (snd (distribute_space_up_to_limits sp ts (fun _ => true) (fun _ => one) base_size growth_limit))
+                   (snd (distribute_space_up_to_limits (x_scale k sp) (map (track_scale k) ts) (fun _ => true) (fun _ => one) base_size growth_limit)).
+Proof.
+  exists (1#8), (Fin (1#16)), [thr_witness_track]. split; [reflexivity|]. intros H.
+  inversion H as [|? ? ? ? Ht _]; subst. track_open Ht. vm_compute in Hinc. discriminate Hinc.
+Qed.
+
+(* the corollary: homogeneous whenever the unscaled run does not depend on the threshold between THRESHOLD / k and THRESHOLD *)
+Lemma maximise_tracks_insensitive k inner a ts :
+  0 < k -> maximise_tracks_t (Fin (DISTRIBUTE_THRESHOLD_Q / k)) inner a ts = maximise_tracks inner a ts ->
+  tracks_rel k (maximise_tracks inner a ts) (maximise_tracks (opt_scale k inner) (gavail_scale k a) (map (track_scale k) ts)).
+Proof.
+  intros Hk E. rewrite <- E. change (maximise_tracks (T := XQ)) with (maximise_tracks_t (T := XQ) threshold).
+  apply (maximise_tracks_homog k Hk); [apply threshold_div_scale; exact Hk | apply op_rel_scale | apply gavail_rel_scale | apply tracks_rel_scale].
+Qed.
+
+Lemma insensitive_premise_ok :
+  maximise_tracks_t (Fin (DISTRIBUTE_THRESHOLD_Q / 2)) None (Definite (Fin 1)) [thr_witness_track]
+  = maximise_tracks None (Definite (Fin 1)) [thr_witness_track].
+Proof. vm_compute. reflexivity. Qed.
